@@ -28,3 +28,23 @@ package worker
 //@ func worker.startContainer$1 property C14
 //@   requires wkr.running != nil && wkr.starting != nil && wkr.running != wkr.starting
 //@   ensures wkr.updated == wkr.busy && has(wkr.running, ctr.UUID) && !has(wkr.starting, ctr.UUID) && wkr.lastUUID == ctr.UUID
+
+// Running reports every container that any worker is starting or running, and
+// every recently exited one with its exit time: the scheduler relies on this
+// to never start a second process for such a container.
+//@ spec macro coveredR(wp, r, n) bool = forall j int, u string :: 0 <= j && j < n && has(mapat(wp.workers, j).running, u) ==> has(r, u)
+//@ spec macro coveredS(wp, r, n) bool = forall j int, u string :: 0 <= j && j < n && has(mapat(wp.workers, j).starting, u) ==> has(r, u)
+//@ func Pool.Running property C14
+//@   ghost ed $dom[string] = dom(wp.exited)
+//@   ghost ev $val[string]time.Time = vals(wp.exited)
+//@   at assign r#1: set ed = dom(wp.exited)
+//@   at assign r#1: set ev = vals(wp.exited)
+//@   ensures coveredR(wp, result, len(wp.workers)) && coveredS(wp, result, len(wp.workers))
+//@   ensures forall u string :: has(wp.exited, u) ==> has(result, u) && result[u] == wp.exited[u]
+//@   loop 1: invariant wp == old(wp) && r != nil && r != wp.exited && (wp.exited != nil ==> dom(wp.exited) == ed && vals(wp.exited) == ev) && coveredR(wp, r, $i) && coveredS(wp, r, $i)
+//@   loop 2: invariant wp == old(wp) && r != nil && r != wp.exited && (wp.exited != nil ==> dom(wp.exited) == ed && vals(wp.exited) == ev) && coveredR(wp, r, $i1 - 1) && coveredS(wp, r, $i1 - 1) && wkr == mapat(wp.workers, $i1 - 1) && 0 < $i1 && $i1 <= len(wp.workers)
+//@   loop 2: invariant forall k int :: 0 <= k && k < $i ==> has(r, mapkey(wkr.running, k))
+//@   loop 3: invariant wp == old(wp) && r != nil && r != wp.exited && (wp.exited != nil ==> dom(wp.exited) == ed && vals(wp.exited) == ev) && coveredR(wp, r, $i1) && coveredS(wp, r, $i1 - 1) && wkr == mapat(wp.workers, $i1 - 1) && 0 < $i1 && $i1 <= len(wp.workers)
+//@   loop 3: invariant forall k int :: 0 <= k && k < $i ==> has(r, mapkey(wkr.starting, k))
+//@   loop 4: invariant wp == old(wp) && r != nil && r != wp.exited && (wp.exited != nil ==> dom(wp.exited) == ed && vals(wp.exited) == ev) && coveredR(wp, r, len(wp.workers)) && coveredS(wp, r, len(wp.workers))
+//@   loop 4: invariant forall k int :: 0 <= k && k < $i ==> has(r, mapkey(wp.exited, k)) && r[mapkey(wp.exited, k)] == wp.exited[mapkey(wp.exited, k)]
